@@ -81,8 +81,12 @@ def residual_signature(code, spec, roles):
 
 def check_kernel(led, it, func_label, results, spec_entry, num, row0, col0, m, n, dofs_emitted_ok=None,
                  expect_reads=None, allow_guard=True, replay=None, capacity_factor=None, loop_roles=None,
-                 alt_specs=None, extra_index_atoms=(), collect=None):
-    """results: it.explore output of the kernel call.  spec_entry(p, q, I, J, Kk, L) -> P"""
+                 alt_specs=None, extra_index_atoms=(), collect=None, mcol=None, ncol=None, full_block=False):
+    """results: it.explore output of the kernel call.  spec_entry(p, q, I, J, Kk, L) -> P
+    mcol, ncol: series orders of the column terms when they differ from those of the row terms (coupling blocks);
+    full_block: the block lies off the diagonal of the global matrix, every element of it must be emitted (no symmetry guard)"""
+    mcol = m if mcol is None else mcol
+    ncol = n if ncol is None else ncol
     emit_paths = 0
     for path, out in results:
         if out[0] == 'raise':
@@ -105,7 +109,7 @@ def check_kernel(led, it, func_label, results, spec_entry, num, row0, col0, m, n
         for g in em:
             lv = g['loopvars']
             dr = K.decode_index(g['row'], row0, num, m, lv)
-            dc = K.decode_index(g['col'], col0, num, m, lv)
+            dc = K.decode_index(g['col'], col0, num, mcol, lv)
             if dr is None or dc is None:
                 led.fail('%s/placement%s@%s' % (func_label, tag, g['line']), func_label,
                          {'row': str(g['row']), 'col': str(g['col']),
@@ -129,7 +133,7 @@ def check_kernel(led, it, func_label, results, spec_entry, num, row0, col0, m, n
             collect['values'] = dict(seen)
             collect['roles'] = roles
         # slot determinacy: placement and guard depend on the four role indices, m, n and the offsets only
-        allowed = {I, J, Kk, L} | set(m.atoms()) | set(n.atoms()) | set(row0.atoms()) | set(col0.atoms())
+        allowed = {I, J, Kk, L} | set(m.atoms()) | set(n.atoms()) | set(mcol.atoms()) | set(ncol.atoms()) | set(row0.atoms()) | set(col0.atoms())
         dep = set()
         for g in em:
             dep |= g['row'].atoms() | g['col'].atoms()
@@ -165,7 +169,7 @@ def check_kernel(led, it, func_label, results, spec_entry, num, row0, col0, m, n
         # guard: every element with R <= C is emitted
         base = [c for c in path.conds if is_index_cond(c)]
         ranges = []
-        for v, hi in ((I, m), (Kk, m), (J, n), (L, n)):
+        for v, hi in ((I, m), (Kk, mcol), (J, n), (L, ncol)):
             ranges += [abstract_int(P.atom(v)) >= 0, abstract_int(P.atom(v)) < abstract_int(hi)]
         guard = [c for c in em[0]['conds'] if is_index_cond(c)]
         outer = [c for c in guard if c.b.atoms() and c.b.atoms() <= set(extra_index_atoms)]
@@ -176,18 +180,20 @@ def check_kernel(led, it, func_label, results, spec_entry, num, row0, col0, m, n
             led.undecide('%s/guard%s' % (func_label, tag), func_label, 'guard not an index condition')
         else:
             rowb = abstract_int(normal(row0 + num * (P.atom(J) * m + P.atom(I))))
-            colb = abstract_int(normal(col0 + num * (P.atom(L) * m + P.atom(Kk))))
+            colb = abstract_int(normal(col0 + num * (P.atom(L) * mcol + P.atom(Kk))))
             pz, qz = z3.Int('p!'), z3.Int('q!')
             s = z3.Solver()
             s.set('timeout', 10000)
             s.add(*ranges)
-            s.add(abstract_int(row0) == abstract_int(col0))
-            s.add(pz >= 0, pz < num, qz >= 0, qz < num, rowb + pz <= colb + qz)
+            s.add(pz >= 0, pz < num, qz >= 0, qz < num)
+            if not full_block:
+                s.add(abstract_int(row0) == abstract_int(col0))
+                s.add(rowb + pz <= colb + qz)
             s.add(z3.Not(z3.And(*gz)) if gz else z3.BoolVal(False))
             t = time.time()
             r = s.check()
             led.solver_time('z3', time.time() - t)
-            name = '%s/upper-triangle-complete%s' % (func_label, tag)
+            name = '%s/%s%s' % (func_label, 'whole-block-emitted' if full_block else 'upper-triangle-complete', tag)
             if r == z3.unsat:
                 led.ok(name, func_label, backend='z3')
             elif r == z3.sat:
@@ -232,7 +238,7 @@ def check_kernel(led, it, func_label, results, spec_entry, num, row0, col0, m, n
             else:
                 led.undecide(name, func_label, str(mdl))
         # frame: attributes read / written
-        reads = sorted({a for (k, o, a) in [x for x in path.log if x[0] == 'read'] if o == 'panel'})
+        reads = sorted({a for (k, o, a) in [x for x in path.log if x[0] == 'read'] if o in ('panel', 'p1', 'p2')})
         writes = sorted({(o, a) for (k, o, a) in [x for x in path.log if x[0] == 'write']})
         name = '%s/frame-no-writes%s' % (func_label, tag)
         if writes:
